@@ -28,7 +28,8 @@ RULE = ("history cases (op c13.hist, 7 templates): scripts on live OrdinalInstan
         "vote); verdict compared with the reference c13.decide, which enumerates all (m-1)^(m-1) parent assignments. "
         "planted m in 7..30, n <= 30: votes grown from a random tree which itself passes c13.check, so the verdict "
         "must be True and the returned edge list must pass c13.check; the same sizes with noise votes: only 'True => "
-        "valid tree' through the checker. On EVERY case the verdict is also compared with the mirror of the algorithm "
+        "valid tree' through the checker; the same two kinds with 65..140 alternatives (64 planted positives with 2..6 "
+        "votes, 12 near misses in quick). On EVERY case the verdict is also compared with the mirror of the algorithm "
         "(Model/TreeAlgo.v, ops c13.algo / c13.algo2 = two different instantiations of the unspecified set iteration "
         "orders), which is proved to return exactly spt_decide's verdict at every size (trick_decides), so the "
         "large noisy cases are judged exactly as well. non-trivial = at least 4 alternatives and at least 2 distinct "
@@ -261,6 +262,14 @@ def generate(tier, seed):
         m = rng.randint(7, 30)
         n = rng.randint(2, 20)
         out.append(_planted(rng, m, n, rng.randint(1, 2), op="c13.witness", big=1))
+    # more than 64 alternatives (a bit-set rewrite on 64-bit words breaks there): planted positives, verdict must be
+    # True and the tree must pass c13.check; a few near misses judged by the mirror
+    nhuge = 64 if tier == "quick" else 500
+    for i in range(nhuge):
+        m = rng.choice([65, 66, 70, 80, 100, 130, 140]) if i % 2 else rng.randint(65, 140)
+        out.append(_planted(rng, m, rng.randint(2, 6), 0, op="c13.check", big=2))
+    for i in range(12 if tier == "quick" else 100):
+        out.append(_planted(rng, rng.randint(65, 140), rng.randint(2, 5), 1, op="c13.witness", big=2))
     # histories on live objects (purity, aliasing of the returned list, object lifetime, storage order, numpy ids,
     # maintenance API in the middle)
     nhist = 1600 if tier == "quick" else 12000
@@ -749,7 +758,7 @@ def stats(c, r, m):
     if c["op"] == "c13.decide":
         ref = "T" if d["decide"] == 1 else "F"
         return ["decide m=%d ref=%s" % (mm, ref), "decide n=%s ref=%s" % (n if n <= 4 else ">4", ref)] + mirror + zero
-    size = "7-15" if mm <= 15 else "16-30"
+    size = "7-15" if mm <= 15 else ("16-30" if mm <= 30 else "65-140")
     if c["op"] == "c13.check":
         return ["planted m=%s verdict=%s witness=%s" % (size, v, "ok" if d["check"] == 1 else "bad")] + mirror + zero
     return ["noisy-large m=%s verdict=%s%s" % (size, v, " witness=ok" if (v == "T" and d["check"] == 1) else "")] + mirror + zero
